@@ -297,7 +297,8 @@ def _row_loop_matrix(f, L):
         if n['k'] != 'decl':
             continue
         for v in n['v']:
-            e = unwrap(v['init']) if v.get('init') is not None else None
+            import idioms
+            e = unwrap(idioms._resolve_local(f, v['init'])) if v.get('init') is not None else None     # `j = loc_beg` with `const ptrdiff_t loc_beg = A_loc.ptr[i]`
             if e is not None and e['k'] == 'idx':
                 b = unwrap(e['b'])
                 if b is not None and b['k'] == 'mem' and b['n'] == 'ptr':
